@@ -56,7 +56,10 @@ RULE = (
     "error and print state, locale environment, recursion limit) between repeated calls of a 15-view probe; every value "
     "that can come from two places (ambiguous flag x each IUPAC letter, explicit class / alphabet x source sequence of "
     "another alphabet, copy(new code), dtype argument, explicit table x module default); common_alphabet over all "
-    "ordered selections of <= 3 of 6 alphabets; ORFs of all strings up to length 7 for 4 boundary tables (all stop, no stop, all start)."
+    "ordered selections of <= 3 of 6 alphabets; ORFs of all strings up to length 7 for 4 boundary tables (all stop, no stop, all start). "
+    "family widths: every ordered pair of prefix alphabets of 2, 255, 256, 257, 300, 65536, 65537 symbols (code widths 1/2/4 bytes) x "
+    "sequences with the boundary codes 0, 1, 254..257, 65535, 65536, k-1 alone and in first / inner / last position through +, "
+    "Sequence-item assignment, ==, construction from the other sequence, copy(code) / code= with the other's code array, as_type, mapper."
 )
 ASSUMPTIONS = [
     "alphabets are built from pairwise different symbols (a bijection needs them); 1/True/1.0 are never mixed",
@@ -101,7 +104,7 @@ def bounds(tier):
         "audit": "flavour_letter, flavour_generic (+ alphabets of 255..257 / 65535..65537 symbols, mapper width pairs), flavour_kmer "
                  "(+ n^k around 2^63), seqhist (histories of depth 2), translate_extra (aliasing, argument order, lengths to 65537), "
                  "identity_derived, two_features, seqhist3 (size-changing histories of depth 3 + reads), third (operand sizes, ambient events, "
-                 "option precedence, selection boundaries)",
+                 "option precedence, selection boundaries), widths (binary operations across code widths)",
         "translate_len": "<=8 (default, 1, syn1, syn2, 2 seed-chosen NCBI), <=6 all 25 NCBI + 4 synthetic, 9 over {A,T,G} (default, 1, syn1, syn2)" if q else
                          "<=8 all 25 NCBI + default + 4 synthetic tables; 9 (all of ACGT) for default, 1, syn1, syn2; 10-11 over {A,T,G} for default, syn1",
     }
@@ -3336,3 +3339,141 @@ def fam_third(ctx):
 
 
 AUDIT_FAMS["third"] = fam_third
+
+
+# ---------------------------------------------------------------------------
+# round-5 seed: binary operations between sequences whose alphabets have different code widths
+# ---------------------------------------------------------------------------
+WIDTH_SIZES = (2, 255, 256, 257, 300, 65536, 65537)
+
+
+def _width_symbol(i):
+    return 3 * i + 7          # never equal to its own code
+
+
+def _width_seqs(k):
+    """code lists over an alphabet of k symbols: boundary codes alone and in first / inner / last position"""
+    edge = sorted({0, 1, 254, 255, 256, 257, 65535, 65536, k - 1} & set(range(k)))
+    fill = 1 % k
+    out = [[]]
+    for c in edge:
+        out += [[c], [c, fill, fill], [fill, c, fill], [fill, fill, c]]
+    return out
+
+
+def fam_widths(ctx):
+    import biotite.sequence as bs
+
+    fam = "widths"
+    alphs = {k: bs.Alphabet([_width_symbol(i) for i in range(k)]) for k in WIDTH_SIZES}
+    seqs = {k: _width_seqs(k) for k in WIDTH_SIZES}
+    syms = lambda codes: [_width_symbol(c) for c in codes]  # noqa: E731
+
+    def seq_of(k, codes):
+        return bs.GeneralSequence(alphs[k], syms(codes))
+
+    def views(q, k, codes):
+        """None if q reads as the symbol list of `codes` over alphabet k, else the first difference"""
+        exp = syms(codes)
+        if len(q) != len(exp):
+            return ["len", len(exp), len(q)]
+        if not same_syms(pl(list(q.symbols)), exp):
+            return ["symbols", exp[:6], pl(list(q.symbols))[:6]]
+        if pl(q.code) != list(codes):
+            return ["code", list(codes)[:6], pl(q.code)[:6]]
+        if not same_syms([q[i] for i in range(len(exp))], exp):
+            return ["getitem", exp[:6], None]
+        if len(q.alphabet) != k:
+            return ["alphabet size", k, len(q.alphabet)]
+        return None
+
+    def J(site, ka, kb, a, b, f, want):
+        r = call(f)
+        if r[0] == "ok":
+            r = ("ok", plain(r[1]))
+        wa, wb = ("w8" if ka <= 256 else "w16" if ka <= 65536 else "w32"), ("w8" if kb <= 256 else "w16" if kb <= 65536 else "w32")
+        judge(ctx, site, "%s_%s" % (wa, wb), lambda: aud_case(fam, site=site, ka=ka, kb=kb, a=a, b=b), r, want, 1)
+        ctx.outcome((site, ka, kb, r[:2] if r[0] == "ok" else r[1]))
+
+    for ka in WIDTH_SIZES:
+        for kb in WIDTH_SIZES:
+            kmax = max(ka, kb)
+            right = seqs[kb] if kb != ka else seqs[kb][:9]
+            for a in seqs[ka]:
+                for b in right:
+                    # a + b : symbols concatenated, alphabet of the extending operand, operands untouched
+                    def add():
+                        x, y = seq_of(ka, a), seq_of(kb, b)
+                        r = x + y
+                        return [views(r, kmax, a + b), views(x, ka, a), views(y, kb, b)]
+                    J("Sequence.__add__", ka, kb, a, b, add, ("accept", [None, None, None]))
+                if len(a) != 3:
+                    continue
+                for b in right:
+                    if len(b) not in (1, 3):
+                        continue
+                    # a[:] = b / a[0:1] = b[:1]  (Sequence item over the other alphabet): symbols kept or refused, never changed
+                    fits = all(c < ka for c in b)
+
+                    def assign():
+                        x, y = seq_of(ka, a), seq_of(kb, b)
+                        try:
+                            x[0:len(b)] = y
+                        except Exception:  # noqa: BLE001
+                            return ["refused", views(x, ka, a), views(y, kb, b)]
+                        return ["ok", views(x, ka, b + a[len(b):]), views(y, kb, b)]
+                    J("Sequence.__setitem__", ka, kb, a, b, assign, ("accept", ["ok" if fits else "refused", None, None]))
+
+                    # == between the two (same symbols / different symbols); across alphabets the statement is silent
+                    def eq():
+                        x, y = seq_of(ka, a), seq_of(kb, b)
+                        return [bool(x == y), bool(y == x)]
+                    if ka == kb:
+                        J("Sequence.__eq__", ka, kb, a, b, eq, ("accept", [a == b, a == b]))
+                    else:
+                        J("Sequence.__eq__", ka, kb, a, b, eq, ("free",))
+            # whole-sequence forms, one per code list of the other alphabet
+            for b in seqs[kb]:
+                fits = all(c < ka for c in b)
+                # a sequence of alphabet A built from a Sequence over B
+                J("Sequence()", ka, kb, None, b, lambda: views(bs.GeneralSequence(alphs[ka], seq_of(kb, b)), ka, b),
+                  ("accept", None) if fits else ("refuse", True))
+                # copy(new_seq_code) and code= with the code array of a sequence of the other width
+                for site, f in (("Sequence.copy", lambda: seq_of(ka, [0]).copy(seq_of(kb, b).code)),
+                                ("Sequence.code=", lambda: (lambda q: (setattr(q, "code", seq_of(kb, b).code), q)[1])(seq_of(ka, [0])))):
+                    def go(f=f):
+                        try:
+                            q = f()
+                        except Exception:  # noqa: BLE001
+                            return "refused"
+                        if fits:
+                            return views(q, ka, b)
+                        v = call(lambda: pl(list(q.symbols)))
+                        return "unreadable" if v[0] == "exc" else ["wrong symbols", v[1][:6]]
+                    if fits:
+                        J(site, ka, kb, None, b, go, ("accept", None))
+                    else:
+                        r = call(go)
+                        ctx.ev(1, 1)
+                        ctx.count("unspecified")
+                        if r != ("ok", "refused") and r != ("ok", "unreadable"):
+                            ctx.violation("%s|value_for_invalid_code|widths" % site, "code beyond the alphabet neither refused nor unreadable",
+                                          aud_case(fam, site=site, ka=ka, kb=kb, b=b), "refused or unreadable", plain(r[1]) if r[0] == "ok" else list(r))
+                # as_type(): documented - the target alphabet must equal or extend the source's, else AlphabetError
+                def astype():
+                    t = bs.GeneralSequence(alphs[ka])
+                    r = seq_of(kb, b).as_type(t)
+                    return [r is t, views(t, ka, b)]
+                J("GeneralSequence.as_type", ka, kb, None, b, astype, ("accept", [True, None]) if ka >= kb else ("refuse", True))
+                # the mapper between the two (no mapping needed when A extends B) keeps the symbols
+                if ka >= kb:
+                    def mapped():
+                        mp = bs.AlphabetMapper(alphs[kb], alphs[ka])
+                        t = bs.GeneralSequence(alphs[ka])
+                        t.code = mp[seq_of(kb, b).code]
+                        return views(t, ka, b)
+                    J("AlphabetMapper[]", ka, kb, None, b, mapped, ("accept", None))
+    ctx.sample(aud_case(fam, site="Sequence.__add__", ka=255, kb=257, a=[254, 1, 1], b=[1, 256, 1]))
+
+
+AUDIT_FAMS["widths"] = fam_widths
